@@ -40,9 +40,73 @@ def _equal_at_f32(got, exp, loose):
     return runeq.compare(down(got), down(exp), loose=loose) is None
 
 
+# families whose torchlib bodies do not branch on the element type: a disagreement that only the reference
+# evaluator shows (ORT has no kernel for the dtype) is arbitrated by the float32 twin of the case
+_F32_TWIN_FAMS = ("pool", "conv", "padnd")
+
+
+def _graph_signature(mb):
+    """Structure of a traced graph without element types: per node (domain, op_type, attributes), tensor-valued
+    attributes by shape and float64 values; local functions by identifier."""
+    import numpy as np
+    onnx = K.T()["onnx"]
+    mp = onnx.ModelProto()
+    mp.ParseFromString(mb)
+    sig = []
+    for n in mp.graph.node:
+        attrs = []
+        for a in sorted(n.attribute, key=lambda a: a.name):
+            if a.type == onnx.AttributeProto.TENSOR:
+                arr = onnx.numpy_helper.to_array(a.t)
+                attrs.append((a.name, "tensor", tuple(arr.shape), tuple(np.asarray(arr, dtype=np.float64).ravel().tolist())))
+            elif a.type in (onnx.AttributeProto.GRAPH, onnx.AttributeProto.GRAPHS):
+                return None  # not compared: never equal
+            else:
+                b = onnx.AttributeProto()
+                b.CopyFrom(a)
+                attrs.append((a.name, b.SerializeToString()))
+        sig.append((n.domain, n.op_type, len(n.input), len(n.output), tuple(attrs)))
+    return sig, sorted((f.domain, f.name, f.overload) for f in mp.functions)
+
+
+def _f32_twin(case):
+    """the same argument tuple with every float64/float16 tensor replaced by its float32 counterpart"""
+    dt = case["f"].get("dtype")
+    if dt not in ("f64", "f16"):
+        return None
+
+    def conv(spec):
+        if isinstance(spec, list) and spec and spec[0] == "T" and spec[2] == dt:
+            return ["T", spec[1], "f32", spec[3]]
+        if isinstance(spec, list) and spec and spec[0] == "TL":
+            return ["TL", [conv(x) for x in spec[1]]]
+        return spec
+    twin = dict(case)
+    twin["g"] = {k: conv(v) for k, v in case["g"].items()}
+    twin["f"] = dict(case["f"], dtype="f32")
+    return twin
+
+
 def run_case(case, fam):
     """-> (verdict, info) verdict in ok | skip:<reason> | <kind> (dtype|shape|value|structure|trace-fails|
     invalid-graph|run-fails)"""
+    keep = {}
+    v, info = _run_case_raw(case, fam, keep)
+    if (fam in _F32_TWIN_FAMS and v in ("value", "shape") and keep.get("engine") == "ref"):
+        twin = _f32_twin(case)
+        if twin is not None:
+            keep2 = {}
+            v2, _ = _run_case_raw(twin, fam, keep2)
+            if v2 == "ok" and keep2.get("engine") == "ort":
+                a, b = _graph_signature(keep["graph"]), _graph_signature(keep2["graph"])
+                if a is not None and a == b:
+                    # node for node the same graph; ORT computes torch's answer at float32, so what the
+                    # reference evaluator shows at this dtype is the evaluator's, not torchlib's
+                    return "skip:reference-evaluator-differs-same-graph-agrees-on-ORT-at-f32", info
+    return v, info
+
+
+def _run_case_raw(case, fam, keep):
     t = K.T()
     torch = t["torch"]
     qual = case["op"]
@@ -94,6 +158,7 @@ def run_case(case, fam):
     if r[0] != "ok":
         return "invalid-graph", r[1][:320]
     mb2 = r[1]
+    keep["graph"] = mb
     try:
         r = H.call(("run", mb2, feeds))
     except c08_helper.Crashed as e:
@@ -101,8 +166,18 @@ def run_case(case, fam):
     if r[0] != "ok":
         if r[3]:
             return "skip:no-runtime-kernel", (r[1] + " | " + r[2])[:200]
+        if "ConvTranspose" in r[1] and "may be too large for stride" in r[1]:
+            # ONNX: "each value of output_padding must be less than the corresponding stride/dilation"; torch
+            # likewise accepts output_padding < max(stride, dilation).  ORT insists on output_padding < stride
+            # (and onnx.reference cannot evaluate the node either): no runtime decides such a graph
+            return "skip:runtimes-reject-output_padding>=stride-with-larger-dilation(ONNX-allows)", r[1][:200]
+        if "ConvTranspose" in r[1] and "must be less than max(stride, dilation)" in r[1]:
+            # torch documents the same constraint but validates it only for a non-empty input: the tuple is
+            # outside the documented domain of the operator (and of ONNX ConvTranspose)
+            return "skip:output_padding>=max(stride,dilation)-torch-validates-only-non-empty-input", r[1][:200]
         return "run-fails", ("ort: " + r[1] + " | ref: " + r[2])[:400]
     outs, engine = r[1], r[2]
+    keep["engine"] = engine
 
     def shape_up(o):
         # a torch list corresponds to an ONNX sequence output or to several outputs
